@@ -333,8 +333,39 @@ func tmplExpr(letter byte, callName string) string {
 		return `randString 3 "z"`
 	case 'X':
 		return "uuid"
+	case 'K':
+		// the global constant again, through the index builtin instead of a field chain
+		return `index .source.global "g"`
+	case 'L':
+		return `"lit"`
+	case 'N':
+		return `len "abcd"`
+	case 'E':
+		// executes with an error: the template function rejects its argument
+		return `randInt "x"`
 	}
 	return ""
+}
+
+// tmplParseError: {P} / {Pd}: texts the template parser rejects.
+func tmplParseError(d byte) string {
+	switch d {
+	case '1':
+		return "{{"
+	case '2':
+		return "{{end}}"
+	case '3':
+		return "{{if}}x{{end}}"
+	case '4':
+		return "{{else}}"
+	case '5':
+		return "{{.a.}}"
+	case '6':
+		return `{{"abc}}`
+	case '7':
+		return "{{range}}x{{end}}"
+	}
+	return "{{nofunc 1}}"
 }
 
 // tmplSpell writes the action that prints expression e in one of the ways text/template allows. All of them print
@@ -372,6 +403,18 @@ func tmplSpell(e string, spelling byte) string {
 func tmplGo(s, callName string) string {
 	var b strings.Builder
 	for i := 0; i < len(s); i++ {
+		if s[i] == '{' && i+2 < len(s) && s[i+1] == 'P' {
+			if s[i+2] == '}' {
+				b.WriteString(tmplParseError('0'))
+				i += 2
+				continue
+			}
+			if i+3 < len(s) && s[i+2] >= '0' && s[i+2] <= '9' && s[i+3] == '}' {
+				b.WriteString(tmplParseError(s[i+2]))
+				i += 3
+				continue
+			}
+		}
 		if s[i] == '{' && i+2 < len(s) {
 			if ex := tmplExpr(s[i+1], callName); ex != "" {
 				if s[i+2] == '}' {
@@ -392,8 +435,9 @@ func tmplGo(s, callName string) string {
 }
 
 var (
-	spelledRe = regexp.MustCompile(`\{[UAIGRSX][0-9]\}`)
-	funcRe    = regexp.MustCompile(`\{[RSX][0-9]?\}`)
+	spelledRe = regexp.MustCompile(`\{[UAIGRSXKLN][0-9]\}`)
+	badTmplRe = regexp.MustCompile(`\{[EP][0-9]?\}`)
+	funcRe    = regexp.MustCompile(`\{[RSXKLN][0-9]?\}`)
 )
 
 var uuidRe = regexp.MustCompile(`[0-9a-f]{8}-[0-9a-f]{4}-4[0-9a-f]{3}-[89ab][0-9a-f]{3}-[0-9a-f]{12}`)
@@ -648,6 +692,9 @@ func class(input, obs string) string {
 		}
 		if strings.Contains(obs, "%3Cno~value%3E") || strings.Contains(obs, "%3Cnil%3E") {
 			c += "/missing-variable"
+		}
+		if badTmplRe.MatchString(kv["calls"]) {
+			c += "/template-error"
 		}
 		if spelledRe.MatchString(kv["calls"]) {
 			c += "/spelled"
